@@ -106,6 +106,16 @@ func c19GoodFeed(i int, variant int) []byte {
 }
 
 func c19Materialise(dir string, entries []DirEntry, onlyGood map[string]bool) error {
+	defer func() {
+		// modification times in the REVERSE of the name order, a minute apart: the order of replay is by name, whatever the
+		// file system says about age (entries that are not plain files keep whatever time they got)
+		sorted := append([]DirEntry(nil), entries...)
+		sort.Slice(sorted, func(i, j int) bool { return sorted[i].Name < sorted[j].Name })
+		for i, e := range sorted {
+			mt := time.Unix(1_700_000_000-int64(i)*60, 0)
+			os.Chtimes(filepath.Join(dir, e.Name), mt, mt)
+		}
+	}()
 	for _, e := range entries {
 		if onlyGood != nil && !onlyGood[e.Name] {
 			continue
